@@ -142,6 +142,27 @@ class Y:
         return 'Y(%s)' % self.tag
 
 
+class YFail(Y):
+    """a callee that is a scheduling point and then fails"""
+    def __call__(self, *a, **kw):
+        Y.__call__(self, None)
+        raise ValueError('callee %s failed for %r' % (self.tag, a))
+
+
+class YRows:
+    """a lazy target: a scheduling point before every row"""
+    def __init__(self, tag, rows):
+        self.tag, self.rows = tag, rows
+
+    def __iter__(self):
+        for r in self.rows:
+            Y(self.tag)(None)
+            yield r
+
+    def __repr__(self):
+        return 'YRows(%s)' % self.tag
+
+
 class YMissing(Y):
     """a missing= factory (called without arguments) that is a scheduling point"""
     def __call__(self):
@@ -216,6 +237,11 @@ def pool():
                     raise       # somebody else's failure (an inner call of a re-entrancy chain)
                 return 'NOT an instance of the class that was raised: %r' % (type(e).__mro__,)
         return call
+    from glom import Merge, Flatten
+    shared_merge, shared_flatten = Merge(), Flatten()
+
+    def other_callee(*a, **kw):
+        return ('other callee', a, sorted(kw.items()))
     gm = Glommer()
     gm.register(P.UA, get=lambda o, k: 'glommer-handler:%s' % k)
     return [
@@ -257,6 +283,13 @@ def pool():
         # user exceptions of two distinct classes with one qualified name: each caller catches its own class
         ('same-name-class-A', lambda: {'a': 1}, ('a', Y('n1'), raiser(RejA)), catching_own(RejA)),
         ('same-name-class-B', lambda: {'a': 2}, ('a', Y('n2'), raiser(RejB)), catching_own(RejB)),
+        # T call steps: the failing callee of one call is a scheduling point, another call makes its own T call meanwhile (the trace names THIS call's callee and arguments)
+        ('t-call-callee-fails', lambda: {'f': YFail('tf')}, T['f']('argument-of-the-failing-call')),
+        ('t-call-other', lambda: {'g': other_callee}, (Y('o1'), T['g']('argument-of-the-other-call', k=1), Y('o2'))),
+        # ONE fresh Merge / Flatten spec folding two lazy targets at the same time (its very first evaluation is still running when the second starts)
+        ('shared-merge-1', lambda: YRows('m1', [{'a': 1}, {'b': 2}]), shared_merge),
+        ('shared-merge-2', lambda: YRows('m2', [{'c': 3}, {'a': 9}]), shared_merge),
+        ('shared-flatten-1', lambda: YRows('l1', [[1], [2]]), shared_flatten),
     ]
 
 
@@ -449,7 +482,7 @@ def compress(trace):
     return out
 
 
-PAIRS = [(0, 1), (0, 0), (2, 3), (2, 2), (4, 5), (4, 4), (6, 6), (7, 8), (0, 7), (6, 2), (4, 0), (5, 8), (9, 10), (9, 9), (11, 7), (12, 13), (14, 15), (17, 18), (14, 4), (15, 5), (16, 7), (21, 4), (22, 5), (23, 24), (23, 23), (25, 26), (27, 28)]
+PAIRS = [(0, 1), (0, 0), (2, 3), (2, 2), (4, 5), (4, 4), (6, 6), (7, 8), (0, 7), (6, 2), (4, 0), (5, 8), (9, 10), (9, 9), (11, 7), (12, 13), (14, 15), (17, 18), (14, 4), (15, 5), (16, 7), (21, 4), (22, 5), (23, 24), (23, 23), (25, 26), (27, 28), (29, 30), (31, 32), (31, 31)]
 
 
 def gen_lines(tier):
@@ -572,7 +605,7 @@ def run_reentrant(case):
         return records, traces
     records, traces = in_child(work)
     where = {'chain': chain, 'inner_failures_caught': catch}
-    fails = {7, 8, 11, 16}
+    fails = {7, 8, 11, 16, 29}
     for level, own, tlines, trepr in traces:
         if not own:
             return R({'expected': 'the error leaving level %d begins its trace with that call\'s own root target %s' % (level, trepr),
@@ -600,7 +633,7 @@ def gen_reentrant(tier):
     cases = []
     for d in (1, 2, 3):
         for chain in itertools.product(range(n), repeat=d):
-            if d == 3 and tier == 'quick' and (chain[0] + chain[1] + chain[2]) % 3:
+            if d == 3 and tier == 'quick' and (chain[0] + chain[1] + chain[2]) % 5:
                 continue
             for catch in (True, False):
                 cases.append([list(chain), catch])
